@@ -211,3 +211,63 @@ func VP_C14_big() {
 	vp.Assert(err2 == nil && len(g) == 1 && g[0] == small[0], "other chunk intact")
 	vp.Cover("end")
 }
+
+// two (thorough: three) WriteSector calls from an arbitrary valid state on one Region value: the
+// single-step invariant is inductive only for the state the pinned code keeps
+// (offsets, sector map); a change that adds state between calls (a free-sector
+// hint, a cached end of file) is only visible after further steps. Each step:
+// a live or fresh coordinate, 1 or 2 sectors; after every step all live chunks
+// read back, the image is valid Anvil and the occupancy invariant holds.
+func VP_C14_steps() {
+	// initial layouts: one or two chunks of 1-2 sectors anywhere in sectors 2..5
+	// (holes before, between and after them), at fixed coordinates
+	const S = 6
+	var chunks []vpChunk
+	a := vpChunk{x: vpCoords[0][0], z: vpCoords[0][1], sec: int32(2 + vp.Choice(4)), cnt: int32(1 + vp.Choice(2))}
+	vp.Assume(a.sec+a.cnt <= S)
+	chunks = append(chunks, a)
+	if vp.Choice(2) == 1 {
+		b := vpChunk{x: vpCoords[1][0], z: vpCoords[1][1], sec: int32(2 + vp.Choice(4)), cnt: int32(1 + vp.Choice(2))}
+		vp.Assume(b.sec+b.cnt <= S && (b.sec+b.cnt <= a.sec || a.sec+a.cnt <= b.sec))
+		chunks = append(chunks, b)
+	}
+	for i := range chunks {
+		c := &chunks[i]
+		c.length = 4096*int(c.cnt) - 4
+		c.first, c.end = vp.Byte(), vp.Byte()
+	}
+	mem := &vpMemFile{b: vpBuild(chunks, S)}
+	r, err := Load(mem)
+	vp.Assert(err == nil, "Load of a valid image succeeds")
+	model := map[[2]int]vpChunk{}
+	for _, c := range chunks {
+		model[[2]int{c.x, c.z}] = c
+	}
+	steps := 2 + vp.Tier()
+	for s := 0; s < steps; s++ {
+		ti := vp.Choice(4)
+		x, z := vpCoords[ti][0], vpCoords[ti][1]
+		n := []int{1, 4093}[vp.Choice(2)]
+		data := make([]byte, n)
+		data[0] = vp.Byte()
+		data[n-1] = data[0] ^ byte(0x40+s)
+		if n == 1 {
+			data[n-1] = data[0]
+		}
+		vp.FreezeClock(true)
+		err = r.WriteSector(x, z, data)
+		vp.FreezeClock(false)
+		vp.Assert(err == nil, "WriteSector err==nil")
+		model[[2]int{x, z}] = vpChunk{x: x, z: z, length: n, first: data[0], end: data[n-1]}
+		vpValidAnvil(mem.b)
+		vpCheckOccupancy(r, S+8)
+		for _, co := range vpCoords[:4] {
+			if c, ok := model[[2]int{co[0], co[1]}]; ok {
+				vpExpectChunk(r, c, "chunk after a later write")
+			} else {
+				vp.Assert(!r.ExistSector(co[0], co[1]), "absent chunk reports absence")
+			}
+		}
+	}
+	vp.Cover("end")
+}
